@@ -543,6 +543,11 @@ func (env *Env) assign(s *Stmt) {
 				env.abort("rtime op " + s.Op + " with numeric operand")
 				return
 			}
+			if l.D > 9e12 || l.D < -9e12 {
+				// beyond ±292 years (int64 nanoseconds): not "within range" (totality is C08's business)
+				env.abort("RTIME arithmetic beyond range")
+				return
+			}
 			env.ValueDependent++
 			env.MixedNumeric++
 			env.Vars[s.Name] = l
